@@ -27,8 +27,9 @@ def run(chk):
         "c18_check_scc_decides) are evaluated in Coq on the implementation's raw output",
         "Rust harness harness/src/bin/c18.rs and this driver"]
     chk.assumptions = ["the graph is a digraph proper: every edge endpoint is an existing vertex (Scc.wf); "
-                       "with a dangling endpoint the loader skips that side silently and the result mentions a non-vertex "
-                       "(family dangling_endpoint, compared with the model only)",
+                       "Graph::from_files refuses an edge list with a dangling endpoint (family dangling_endpoint_from_files: "
+                       "I = M = S = LoadErr, decided from wfb); a Graph assembled directly with a dangling endpoint is "
+                       "outside the property (family dangling_endpoint, compared with the model only)",
                        "recursion depth of depth_first_search (<= number of vertices) fits the thread stack"]
     chk.proofs(extra_targets=["Model/SccRun.vo"])
     binp = vf.build_harness("c18")
